@@ -14,7 +14,7 @@ are rejected and leave the run untouched.
 """
 from __future__ import annotations
 
-from vp.core import Check, Failure, enc
+from vp.core import Check, Failure, enc, load_corpus
 
 META = dict(
     level_text="Lean 4 theorems over the interpreter model and the model of MacroNode.macro_calling_macro: visiting "
@@ -117,12 +117,12 @@ def gen_fn_cases(ctx: Check) -> list[dict]:
     ctx.count("fn:exhaustive-2x2", len(full22))
     if ctx.tier == "thorough":
         allg = list(enumerate_graphs(3, 2))
-        for items in ctx.rng.sample(allg, 6000):
+        for items in ctx.rng.sample(allg, 20000):
             cases.append(_fn_case(pcode_of(items), []))
-        ctx.count("fn:sampled-3x2", 6000)
-    for _ in range(ctx.n(300, 4000)):
+        ctx.count("fn:sampled-3x2", 20000)
+    for _ in range(ctx.n(300, 20000)):
         cases.append(_fn_case(pcode_of(gen_graph(ctx.rng)), [ctx.rng.choice(["A", "B", "Z"])]))
-    ctx.count("fn:random-nested", ctx.n(300, 4000))
+    ctx.count("fn:random-nested", ctx.n(300, 20000))
     return cases
 
 
@@ -410,7 +410,7 @@ def run(ctx: Check) -> int:
         ctx.count("fn:impl-recursion-error", sum(1 for x in answers if x.startswith("err")))
     tm["fn-stream"] = round(time.time() - t0 - sum(tm.values()), 1)
     # (2) interpreter level
-    m3_cases = gen_m3_cases(ctx, ctx.n(120, 2500))
+    m3_cases = gen_m3_cases(ctx, ctx.n(120, 10000))
     cache: dict[int, tuple[list[str], list[str]]] = {}
 
     def both(c):
@@ -424,7 +424,11 @@ def run(ctx: Check) -> int:
                    nontrivial=lambda c, o: any("|macros=" in x and "|macros=|" not in x for x in o), impl_timeout=60)
     tm["m3-stream"] = round(time.time() - t0 - sum(tm.values()), 1)
     # (3) oracle on the real engine
-    cases = gen_oracle_cases(ctx, ctx.n(60, 1500), ctx.n(18, 180), ctx.n(24, 400))
+    corpus = []
+    for c in load_corpus("C41"):
+        if c.get("kind") in ("expand", "recursive", "edit"):
+            corpus.append(dict(c, items=[_tup(x) for x in c["items"]]))
+    cases = corpus + gen_oracle_cases(ctx, ctx.n(60, 6000), ctx.n(18, 540), ctx.n(24, 1500))
     ctx.monitor(cases, oracle, impl_timeout=120)
     tm["oracle"] = round(time.time() - t0 - sum(tm.values()), 1)
     ctx.assumptions = ["programs are the trees the real parser builds", "UOD commands CmdA/CmdB of the harness UOD",
